@@ -225,16 +225,30 @@ class Scheduler:
         d = {f for f in fs if f.done()}
         return cf._base.DoneAndNotDoneFutures(d, set(fs) - d)
 
-    def install_waiters(self):
+    def install_waiters(self, modules=()):
+        """Rebinds concurrent.futures.as_completed / wait (which block on
+        real condition variables) to the controlled versions - also where a
+        module of the code under test has imported them by name
+        (``from concurrent.futures import wait``); returns a function that
+        restores them."""
         import concurrent.futures as cf
         saved = (cf.as_completed, cf.wait, cf._base.as_completed,
                  cf._base.wait)
         cf.as_completed = cf._base.as_completed = self.as_completed
         cf.wait = cf._base.wait = self.wait
+        by_name = []
+        for mod in modules:
+            for name, mine in (("as_completed", self.as_completed),
+                               ("wait", self.wait)):
+                if getattr(mod, name, None) in saved:
+                    by_name.append((mod, name, getattr(mod, name)))
+                    setattr(mod, name, mine)
 
         def restore():
             (cf.as_completed, cf.wait, cf._base.as_completed,
              cf._base.wait) = saved
+            for mod, name, orig in by_name:
+                setattr(mod, name, orig)
         return restore
 
     def close(self):
